@@ -23,7 +23,8 @@ Cases (JSON), by "kind":
       the variable applied k times, each time to the previous result, with id() of every mutable object (token model)
   ctor             {"kind":"ctor","k":"compose"|"combine","args":[E..]}
       Compose(*args) / Combine(*args) on object identities: nothing of an argument is written, the new var_context
-      shares no object with an argument (Model/C14X.lean composeInitT for Compose)
+      shares no object with an argument (Model/C14X.lean composeInitT for Compose, combineInitT for the `combine` tuple
+      of a Combine)
   E = {"k":"var","name":P,"getter":{"tag":i}|"variable"|"notcallable","type":P,"kw":{key:P}}
     | {"k":"compose","args":[E..],"kw":{key:P}} | {"k":"combine","args":[E..],"kw":{key:P}} | {"k":"other"}
   P (a Python value) = int | str | {"l":[P..]} (list) | {"t":[P..]} (tuple) | {"d":{key:P}} (dict) | {"o":name} (None, bool,
@@ -98,6 +99,11 @@ THEOREMS = [
     "Lena.C14.delAttr_leaves_context",
     "Lena.C14.Tok.composeInitT_args_untouched",
     "Lena.C14.Tok.composeInitT_result_fresh",
+    # the name of a Combine: the keyword whatever its value ('' too), else the joined names; it reaches context.variable
+    "Lena.C14.combine_name",
+    "Lena.C14.combine_name_reaches_context",
+    # constructing a Combine changes none of its arguments (object identities)
+    "Lena.C14.Tok.combineInitT_fresh",
 ]
 # audited too, but not obligations of the property: true by definition of the model (the clauses they stand for are
 # carried by the correspondence and the oracle), soundness of the Boolean checks, and theorems about code that is not in
@@ -140,7 +146,8 @@ TRUSTED = [
     "(var_contexts, outputs, attribute reads, exception class/phase of Sequence(v1..vn) and Compose(v1..vn) on every case)",
     "the second transcription of __call__/_update_context with object identities (Model/C14Tok.lean): proved to erase to the "
     "first one (callT_erase); its identities (which objects are written, which objects the result is made of) validated "
-    "against id() of the real objects on every tok case",
+    "against id() of the real objects on every tok case; likewise Compose.__init__ (composeInitT) and the `combine` tuple of "
+    "Combine.__init__ (combineInitT) on every ctor case",
     "dictionaries as slot vectors over the key alphabet of the case (DESIGN.md section 2); copy.deepcopy is the identity on "
     "values and renames every mutable object (values without internal sharing)",
     "the getter fixture x -> (i, x) on both sides; JSON line protocol encoders (harness/props/c14.py, drivers/C14.lean)",
@@ -204,7 +211,7 @@ ASSUMPTIONS = [
     "do with the context of their value): no var_context may change and later results must be equal; whether objects are "
     "shared is not demanded as such in the chain/attr kinds (only its observable consequence is), the tok/ctor kinds state it "
     "on identities because the token theorems do. (4) Combine(..., name='') has the name '' (documented: the joined "
-    "name is used 'if not provided'). (5) deleting var_context['name'] makes every error message of __getattr__ recurse "
+    "name is used 'if not provided'; Lean combine_name). (5) deleting var_context['name'] makes every error message of __getattr__ recurse "
     "(RecursionError): a variable without a name is outside the statement ('variables have name'), not generated",
     "the state a Sequence keeps between runs: a Sequence object is run on a flow of several values and then once more on a "
     "flow of one value; longer histories of runs of one Sequence object are not generated",
@@ -1753,6 +1760,8 @@ def signature(case, failure):
         return "attr|" + (failure or "").split(":", 1)[-1].strip()[:50]
     if _kind(case) == "ctor":
         return "ctor|" + (failure or "")[:40]
+    if (failure or "").startswith("Combine(..., name="):
+        return "Combine(..., name=) has another name"      # one report, whatever the names of the case
     head = (failure or "").split(":")[0]
     for w in ("Sequence ", "Compose "):
         if head.startswith(w):
@@ -2457,6 +2466,9 @@ def _ctor_run_impl(case):
     except Exception as e:
         res["e2"] = exc_name(e)
         return res
+    if case["k"] == "combine":
+        # the tuple var_context["combine"] first: its objects are numbered in the order the constructor copies them
+        res["comb"] = _tv(comp.var_context.get("combine"), ids, alive)
     res["res"] = _tv(comp.var_context, ids, alive)
     res["erased"] = enc(comp.var_context)
     res["shared"] = sorted(ids[i] for i in _reach(comp.var_context, set()) if i in arg_objs)
@@ -2466,10 +2478,8 @@ def _ctor_run_impl(case):
 
 
 def _ctor_model_requests(case):
-    if case["k"] != "compose":
-        return []         # Combine: no token model of the constructor; the oracle evaluates the statement on the objects
     names = alphabet(case)
-    return [{"op": "ctor", "names": names, "fx": detect_fx(), "nk": detect_nk(),
+    return [{"op": "ctor", "k": case["k"], "names": names, "fx": detect_fx(), "nk": detect_nk(),
              "args": [expr_to_model(e, names) for e in case["args"]]}]
 
 
@@ -2485,6 +2495,19 @@ def _ctor_compare(case, res, replies):
     ren = {i: i for i in range(m["next"])}
     if m["next"] != res["next"] or [_tv_from_model(x, names, ren) for x in m["args"]] != res["args"]:
         return f"numbering of the objects: impl next={res['next']} args={res['args']} vs model next={m['next']} args={m['args']}"
+    if case["k"] == "combine":
+        # Model/C14X.lean combineInitT: the tuple var_context["combine"] (the exceptions of Combine.__init__ are compared
+        # on values in the chain kind, mkCombine)
+        if "e2" in res:
+            return None
+        if not m["fresh"]:
+            return "the model's Combine shares objects with its arguments (combineInitT_fresh must exclude this)"
+        if res["shared"] or res["changed"]:
+            return None       # the oracle reports it
+        c = _tv_from_model(m["comb"], names, ren)
+        if c != res.get("comb"):
+            return f"identities of var_context['combine']: impl {res.get('comb')} vs model combineInitT {c}"
+        return None
     err = [st["e"] for st in m["steps"] if "e" in st]
     if err or "e2" in res:
         if (err[0] if err else None) != res.get("e2"):
